@@ -49,6 +49,56 @@ let rec is_subseq a b = match a, b with
   | _, [] -> false
   | x :: a', y :: b' -> if x = y then is_subseq a' b' else is_subseq a b'
 
+(* Linearizability of the "nothing there" / "no room" answers, for fixed-role programs (thread 0:
+   acqp + pushes, thread 1: acqc + pops), decided on the implementation's own timeline: the cursors
+   are reconstructed from the successful cursor writes in the trace (thread 0: store = write cursor,
+   successful compare-exchange r -> r+1 = eviction of the read cursor; thread 1: store or successful
+   compare-exchange = read cursor); a pop may answer None only if the queue was empty at some
+   instant of the call, a non-overflowing push may answer "full" only if it held `cap` elements
+   at some instant of the call.  (Sound for the algorithms under sequential consistency: the
+   emptiness test compares a read cursor with a LATER load of the write cursor.) *)
+let fixed_roles aprogs =
+  Array.length aprogs = 2
+  && (match aprogs.(0) with AcqP :: r -> r <> [] && List.for_all (function Push _ -> true | _ -> false) r | _ -> false)
+  && (match aprogs.(1) with AcqC :: r -> r <> [] && List.for_all (fun o -> o = Pop) r | _ -> false)
+
+let lin_check overflow capi aprogs =
+  if not (fixed_roles aprogs) then None else begin
+    let trace = List.rev !case_trace in
+    let wp = ref 0 and rp = ref 0 in
+    let bad = ref None in
+    (* per thread: number of returns seen (return 0 = the handle acquisition), emptiness / fullness seen in the current call *)
+    let nret = [| 0; 0 |] in
+    let seen_empty = ref (true) and seen_full = ref (capi = 0) in
+    let upd () = if !wp = !rp then seen_empty := true; if !wp - !rp >= capi then seen_full := true in
+    List.iter (fun toks ->
+      match toks with
+      | [ "E"; t; _; _; kind; _; _; rd; wr; ok ] ->
+        let t = int_of_string t in
+        if t < 2 && nret.(t) >= 1 then begin
+          let cursor_cas = kind = "cas" && ok = "1" && (try Int64.equal (Int64.of_string ("0u" ^ wr)) (Int64.add (Int64.of_string ("0u" ^ rd)) 1L) with _ -> false) in
+          if t = 0 && kind = "store" then wp := int_of_string wr
+          else if t = 0 && cursor_cas then rp := int_of_string wr
+          else if t = 1 && (kind = "store" || cursor_cas) then rp := int_of_string wr;
+          upd ()
+        end
+      | [ "R"; t; code ] ->
+        let t = int_of_string t in
+        if t < 2 then begin
+          if nret.(t) >= 1 && !bad = None then begin
+            if t = 1 && code = "0" && not !seen_empty then
+              bad := Some (Printf.sprintf "pop #%d returned None although the queue held at least one element at every instant of the call (not linearizable)" nret.(t));
+            if t = 0 && (not overflow) && code = "0" && not !seen_full then
+              bad := Some (Printf.sprintf "push #%d was refused as full although the queue held fewer than %d elements at every instant of the call (not linearizable)" nret.(t) capi)
+          end;
+          nret.(t) <- nret.(t) + 1;
+          (* a new call of this thread starts in the current state *)
+          if t = 1 then seen_empty := (!wp = !rp) else seen_full := (!wp - !rp >= capi)
+        end
+      | _ -> ()) trace;
+    !bad
+  end
+
 let spsc_spec aprogs capi =
   let sconcat = String.concat "," in
   (fun rets final ->
@@ -148,7 +198,7 @@ let mk_sys toks =
         final_ok = (fun toks ->
           let m = List.map u64_string_of_n (spsc_content (fst !c)) in
           if m = toks then None else Some (Printf.sprintf "model content [%s] impl content [%s]" (sconcat m) (sconcat toks)));
-        spec = spsc_spec aprogs capi }
+        spec = (fun rets final -> match spsc_spec aprogs capi rets final with Some m -> Some m | None -> lin_check false capi aprogs) }
     end else if kind = "oq" then begin
       let (((acqp, relp), acqc), relc), pop = oq_ops in
       let conv = function AcqP -> acqp | RelP -> relp | AcqC -> acqc | RelC -> relc | Pop -> pop | Push v -> oq_push (n_of_int v) in
@@ -158,7 +208,7 @@ let mk_sys toks =
         final_ok = (fun toks ->
           let m = List.map u64_string_of_n (oq_content (fst !c)) in
           if m = toks then None else Some (Printf.sprintf "model content [%s] impl content [%s]" (sconcat m) (sconcat toks)));
-        spec = oq_spec aprogs capi }
+        spec = (fun rets final -> match oq_spec aprogs capi rets final with Some m -> Some m | None -> lin_check true capi aprogs) }
     end else if kind = "oqra" then begin
       let pushes = List.filter_map (function Push v -> Some (n_of_int v) | _ -> None) (if nt > 0 then aprogs.(0) else []) in
       let npops = List.length (List.filter (fun o -> o = Pop) (if nt > 1 then aprogs.(1) else [])) in
